@@ -4,19 +4,28 @@ Correspondence (model driver `drv_c09` vs. the real classes) for `encode` on eve
 length and on rejected lengths, `deinterleave_data_bits` (both flags), `deinterleave_all_bits`,
 `deinterleave_cs5_bits` / `deinterleave_crc8_bits`, `set_parity`, `FiveBitChecksum.calculate` and
 `CRC8.calculate`; the oracle evaluates the property itself on the real code (DESIGN §5 C09).
+
+Histories (second half of this file): every entry point of the three classes and of the two checksum
+functions is also called inside histories — the same argument object passed again after the caller
+changed it in place, one object passed to different entry points, results kept / edited and the call
+repeated, inputs a coarse cache key would confuse, other containers of the same bits — and every call is
+compared with the same call made first on a new copy of the class, with what the property promises, and
+(line by line, `vh.*`) with the store model of `Model/VbptcStore.lean`.
 """
+import importlib
 import json
 import os
 import subprocess
+import types
 
 import numpy
-from bitarray import bitarray
+from bitarray import bitarray, frozenbitarray
 from bitarray.util import int2ba
 
 from common import BIN, impl_error
 
 PROP = "C09"
-MODULES = ["C09", "C09a", "C09b", "C09c", "C09d", "C09e"]
+MODULES = ["C09", "C09a", "C09b", "C09c", "C09d", "C09e", "C09h"]
 GEN = ["Codes", "Vbptc"]
 MATCHERS = {}
 
@@ -51,6 +60,19 @@ class C:
         self.R = max(v[1] for v in ii.values())
         self.W = max(v[2] for v in ii.values()) + 1
         self.cell = {(v[1] - 1, v[2]): v[0] for v in ii.values()}
+        self.lengths = tuple(sorted({k, k + c, n}))  # accepted encode input lengths
+        self.info = dict(cls.DEINTERLEAVE_INFO_BITS_ONLY_MAP)  # message bit -> on-air position
+        self.info_set = set(self.info.values())
+        self.il_of_key = {key: v[0] for key, v in ii.items()}
+
+    def message_of(self, bits: str) -> str:
+        """the message an accepted encode input stands for"""
+        if len(bits) == self.k:
+            return bits
+        if self.c and len(bits) == self.k + self.c:
+            return bits[: self.k]
+        # fully de-interleaved matrix: on-air bit `key` is bits[il of key], message bit i is on-air bit info[i]
+        return "".join(bits[self.il_of_key[self.info[i]]] for i in range(self.k))
 
     # library calls (copies: never hand the implementation an object the harness still uses)
     def encode(self, bits, even=True):
@@ -260,6 +282,1126 @@ def messages(ctx, cd: C, n_random: int):
         yield "random", bitarray([1 if ctx.rng.random() < p else 0 for _ in range(k)])
 
 
+# ======================================================================================================
+# Histories: what was called before, and which Python object carries a value, must not matter
+# (Model/VbptcStore.lean: results are new objects, every call is the history-free function of what its
+# arguments hold at the time of the call, held objects are left alone).
+#
+# A history is a list of steps, each a tuple of tokens (the `vh.*` line of the model driver without the
+# prefix, optionally followed by `?=<what the property promises for this call>`):
+#   new <obj>                      the caller builds an object and keeps it            -> handle
+#   encode <cls> <even> <arg>      data <cls> <incl> <arg>     all <cls> <arg>     cs <cls> <arg>
+#   setparity <cls> <even> <arg>   make <cls>                  fill <cls> @t <arg>
+#   cs5calc <arg>                  crc8calc <arg>                                      -> handle (result)
+#   flip @k i | setall @k v | extend @k bits | clear @k | assign @k bits | put @k i v   in-place edits
+#   read @k                        nop | nop+ (placeholders left by the shrinker)
+# <arg> is `@k` (the held object itself) or an object literal built for the call: B: / L: bitarray in a
+# big / little-endian container, F: frozenbitarray, S: list, T: tuple, A: numpy int array, O: bytearray,
+# Y: bytes.
+# ======================================================================================================
+_MODS = {
+    "128": "okdmr.dmrlib.etsi.fec.vbptc_128_72",
+    "68": "okdmr.dmrlib.etsi.fec.vbptc_68_28",
+    "32": "okdmr.dmrlib.etsi.fec.vbptc_32_11",
+    "cs5": "okdmr.dmrlib.etsi.fec.five_bit_checksum",
+    "crc8": "okdmr.dmrlib.etsi.crc.crc8",
+}
+_CLSNAME = {"128": "VBPTC12873", "68": "VBPTC6828", "32": "VBPTC3211", "cs5": "FiveBitChecksum", "crc8": "CRC8"}
+_USES = {"128": ("cs5", "FiveBitChecksum"), "68": ("crc8", "CRC8")}  # global name each class reaches its checksum by
+_CODE = {}
+PUSHING = {"new", "encode", "data", "all", "cs", "setparity", "make", "fill", "cs5calc", "crc8calc", "nop+"}
+EDITS = {"flip", "setall", "extend", "clear", "assign", "put"}
+ARGPOS = {"encode": (3,), "data": (3,), "all": (2,), "cs": (2,), "setparity": (3,), "make": (), "fill": (2, 3),
+          "cs5calc": (1,), "crc8calc": (1,)}
+RESULT_KIND = {"encode": "B", "data": "B", "all": "B", "cs": "B", "setparity": "A", "make": "A", "fill": "A",
+               "cs5calc": "N", "crc8calc": "N"}
+PROMISE_KIND = {"encode": "reencode", "data": "extract", "cs": "checksum-readback", "setparity": "set-parity"}
+PROPERTY_KINDS = {"reencode", "extract", "checksum-readback", "set-parity", "encode-length", "row-not-codeword",
+                  "column-parity", "encode-raises"}
+MUTABLE = (bitarray, numpy.ndarray, list, bytearray)
+
+
+def real_env():
+    return {n: getattr(importlib.import_module(_MODS[n]), _CLSNAME[n]) for n in _MODS}
+
+
+class FreshEnv:
+    """new copies of the five classes, made on demand: the module source is executed again in a module
+    object of its own, so a copy has its own globals and its own class-level state and nothing was ever
+    called on it (the "first call" reference of the history probes).  A class reaches its checksum
+    function through a module global, which is pointed at the new copy of that function's class."""
+
+    def __init__(self):
+        self.c = {}
+
+    def __getitem__(self, name):
+        if name not in self.c:
+            if name not in _CODE:
+                path = importlib.import_module(_MODS[name]).__file__
+                with open(path, encoding="utf-8") as fh:
+                    _CODE[name] = (compile(fh.read(), path, "exec"), path)
+            code, path = _CODE[name]
+            mod = types.ModuleType("okdmr_c09_new_copy_" + name)
+            mod.__file__ = path
+            exec(code, mod.__dict__)
+            if name in _USES:
+                dep, glob = _USES[name]
+                if glob in mod.__dict__:
+                    mod.__dict__[glob] = self[dep]
+            self.c[name] = getattr(mod, _CLSNAME[name])
+        return self.c[name]
+
+
+def endian_of(b) -> str:
+    e = b.endian
+    return e() if callable(e) else e
+
+
+def canon(o) -> str:
+    """canonical kind + content of an object the caller holds"""
+    if o is None:
+        return "void"
+    if isinstance(o, bitarray):
+        return ("L:" if endian_of(o) == "little" else "B:") + (o.to01() or "-")
+    if isinstance(o, (list, tuple)):
+        try:
+            t = "".join("1" if int(x) == 1 else "0" if int(x) == 0 else "?" for x in o)
+        except Exception:  # noqa
+            return "ERR not-a-bit-sequence"
+        return "S:" + (t or "-")
+    if isinstance(o, numpy.ndarray):
+        if o.ndim not in (1, 2):
+            return "ERR shape-" + "x".join(map(str, o.shape))
+        return "A:" + ("".join("0" if v == 0 else "1" if v == 1 else "?" for v in o.flatten().tolist()) or "-")
+    if isinstance(o, (bytes, bytearray)):
+        return "O:" + (bytes(o).hex() or "-")
+    if isinstance(o, (bool, int, numpy.integer)):
+        return "N:%d" % int(o) if int(o) >= 0 else "ERR negative-number"
+    return "ERR returned-" + type(o).__name__
+
+
+def parse_obj(tok: str):
+    t, body = tok[0], tok[2:]
+    body = "" if body == "-" else body
+    if t == "B":
+        return bitarray(body, endian="big")
+    if t == "L":
+        return bitarray(body, endian="little")
+    if t == "F":
+        return frozenbitarray(body)
+    if t == "S":
+        return [int(ch) for ch in body]
+    if t == "T":
+        return tuple(int(ch) for ch in body)
+    if t == "A":
+        return numpy.array([int(ch) for ch in body], dtype=int)
+    if t == "O":
+        return bytearray.fromhex(body)
+    if t == "Y":
+        return bytes.fromhex(body)
+    if t == "N":
+        return int(body)
+    raise ValueError(tok)
+
+
+def copy_obj(o):
+    """an equal object of the same type (same container bit order) that shares nothing with `o`"""
+    if isinstance(o, frozenbitarray):
+        return frozenbitarray(o)
+    if isinstance(o, bitarray):
+        return bitarray(o, endian=endian_of(o))
+    if isinstance(o, list):
+        return list(o)
+    if isinstance(o, tuple):
+        return tuple(list(o))
+    if isinstance(o, numpy.ndarray):
+        return o.copy()
+    if isinstance(o, bytearray):
+        return bytearray(o)
+    return o
+
+
+def call_env(env, toks, objs):
+    """one call of an entry point; (canonical result or `ERR <Class>`, result object)"""
+    op = toks[0]
+    try:
+        if op == "cs5calc":
+            r = env["cs5"].calculate(objs[0])
+        elif op == "crc8calc":
+            r = env["crc8"].calculate(objs[0])
+        else:
+            name = toks[1]
+            cls = env[name]
+            if op == "encode":
+                r = cls.encode(objs[0], toks[2] == "1") if name == "32" else cls.encode(objs[0])
+            elif op == "data":
+                r = cls.deinterleave_data_bits(objs[0]) if name == "32" else cls.deinterleave_data_bits(objs[0], toks[2] == "1")
+            elif op == "all":
+                r = cls.deinterleave_all_bits(objs[0])
+            elif op == "cs":
+                r = cls.deinterleave_cs5_bits(objs[0]) if name == "128" else cls.deinterleave_crc8_bits(objs[0])
+            elif op == "setparity":
+                r = cls.set_parity(objs[0], toks[2] == "1") if name == "32" else cls.set_parity(objs[0])
+            elif op == "make":
+                r = cls.make_encoding_table()
+            elif op == "fill":
+                r = cls.fill_encoding_table(objs[0], objs[1])
+            else:
+                raise ValueError(op)
+    except BaseException as e:  # noqa
+        return impl_error(e), None
+    if r is None:
+        return "ERR returned-None", None
+    return canon(r), r
+
+
+def steps_str(steps):
+    return [" ".join(s) for s in steps]
+
+
+def steps_parse(lines):
+    return [tuple(l.split(" ")) for l in lines]
+
+
+def flip_str(w: str, positions) -> str:
+    b = list(w)
+    for i in positions:
+        b[i] = "1" if b[i] == "0" else "0"
+    return "".join(b)
+
+
+class Hist:
+    """one history executed on the classes of `env`; with `fresh`, every call is also made first on a new
+    copy of the class with equal arguments (content, type, container) and compared"""
+
+    def __init__(self, env, cds, fresh=True):
+        self.env, self.cds, self.fresh = env, cds, fresh
+        self.steps, self.lines, self.bad = [], [], []
+        self.held, self.exp, self.owner = [], [], []
+
+    def _ref(self, a: str):
+        k = int(a[1:])
+        return self.held[k] if k < len(self.held) else None
+
+    def _arg(self, a: str):
+        return self._ref(a) if a.startswith("@") else parse_obj(a)
+
+    def _push(self, i, obj, content):
+        self.held.append(obj)
+        self.exp.append(content)
+        self.owner.append(i)
+
+    def _touched(self, o):
+        """the caller (or a call that writes into its argument) changed object o: every handle of it follows"""
+        cur = canon(o)
+        for j, h in enumerate(self.held):
+            if h is o:
+                self.exp[j] = cur
+
+    def _bad(self, kind, i, what, exp, act):
+        self.bad.append((kind, i, what, exp, act))
+
+    def run(self, steps):
+        for st in steps:
+            self.step(st)
+        return self
+
+    def _edit(self, op, o, toks):
+        if op == "flip":
+            i = int(toks[2])
+            if i >= (o.size if isinstance(o, numpy.ndarray) else len(o)):
+                return  # guarded like the model's flipAt: nothing to invert
+            if isinstance(o, bitarray):
+                o.invert(i)
+            elif isinstance(o, numpy.ndarray):
+                o.flat[i] = 1 - int(o.flat[i])
+            else:
+                o[i] = 1 - int(o[i])
+        elif op == "setall":
+            v = int(toks[2])
+            if isinstance(o, bitarray):
+                o.setall(v)
+            elif isinstance(o, numpy.ndarray):
+                o.fill(v)
+            else:
+                o[:] = [v] * len(o)
+        elif op in ("extend", "assign"):
+            body = "" if toks[2] == "-" else toks[2]
+            x = bitarray(body) if isinstance(o, bitarray) else [int(ch) for ch in body]
+            if op == "extend":
+                o.extend(x)
+            else:
+                o[:] = x
+        elif op == "clear":
+            o.clear()
+        elif op == "put":
+            if int(toks[2]) < len(o):
+                o[int(toks[2])] = int(toks[3])
+
+    def step(self, st):
+        st = tuple(st)
+        i = len(self.steps)
+        self.steps.append(st)
+        toks = list(st)
+        want = toks.pop()[2:] if toks[-1].startswith("?=") else None
+        op = toks[0]
+        if op in ("nop", "nop+"):
+            out = "void"
+            if op == "nop+":
+                self._push(i, None, None)
+        elif op == "new":
+            o = parse_obj(toks[1])
+            out = canon(o)
+            self._push(i, o, out)
+        elif op == "read":
+            o = self._ref(toks[1])
+            out = canon(o)
+        elif op in EDITS:
+            o = self._ref(toks[1])
+            if o is None:
+                out = "void"
+            else:
+                out = "ok"
+                try:
+                    self._edit(op, o, toks)
+                except Exception:  # noqa  (an object of an unexpected kind was handed out; reported by the call that returned it)
+                    out = "ERR cannot-edit"
+                self._touched(o)
+        else:
+            objs = [self._arg(toks[p]) for p in ARGPOS[op]]
+            if any(o is None for o in objs):
+                out = "void"
+                self._push(i, None, None)
+            else:
+                before = [canon(o) for o in objs]
+                fargs = [copy_obj(o) for o in objs]
+                content, res = call_env(self.env, toks, objs)
+                shared = res is not None and isinstance(res, MUTABLE)
+                alias = None
+                if shared:
+                    for j, h in enumerate(self.held):
+                        if h is res:
+                            alias = j
+                            break
+                arg_is = [shared and res is o for o in objs]
+                out = (f"=@{alias} " if alias is not None else "") + content
+                name = f"{op}" + (f"[{toks[1]}]" if op not in ("cs5calc", "crc8calc") else "")
+                if self.fresh:
+                    ref, ref_res = call_env(FreshEnv(), toks, fargs)
+                    if ref != content:
+                        self._bad("history-dependent-result", i,
+                                  f"{name} returns something else than the same call with equal arguments made first on a "
+                                  "new copy of the class", ref, content)
+                    ref_is = [ref_res is not None and isinstance(ref_res, MUTABLE) and ref_res is a for a in fargs]
+                    if ref_is != arg_is:
+                        self._bad("result-aliasing", i, f"{name}: whether the result is the argument object itself differs from "
+                                  "the same call made first on a new copy of the class", ref_is, arg_is)
+                    for p, (o, fa) in enumerate(zip(objs, fargs)):
+                        if canon(o) != canon(fa):
+                            self._bad("argument-altered", i, f"{name} leaves its argument {p} in another state than the same call "
+                                      "made first on a new copy of the class", canon(fa), canon(o))
+                if alias is not None and not any(arg_is):
+                    self._bad("result-aliasing", i, f"{name} returns the very object that step {self.owner[alias]} "
+                              f"({' '.join(self.steps[self.owner[alias]])[:60]}) handed out / the caller built", "a new object", f"@{alias}")
+                for p, o in enumerate(objs):
+                    if canon(o) != before[p]:
+                        self._touched(o)
+                if want is not None and content != want:
+                    self._bad(PROMISE_KIND.get(op, "wrong-result"), i,
+                              f"{name} does not return what the property promises for this call", want, content)
+                err = content.startswith("ERR")
+                self._push(i, None if err else res, None if err else content)
+                if op == "encode":
+                    self._word_checks(i, toks, before[0], content)
+        self.lines.append(("vh." + " ".join(toks), out))
+        # every object held so far still holds what it held (unless the caller / a writing call changed it)
+        for j, o in enumerate(self.held):
+            if o is not None and not isinstance(o, (int, numpy.integer)):
+                cur = canon(o)
+                if cur != self.exp[j]:
+                    self._bad("held-result-changed", i,
+                              f"the object of step {self.owner[j]} ({' '.join(self.steps[self.owner[j]])[:60]}) "
+                              "changed although the caller did not touch it", self.exp[j], cur)
+                    self._touched(o)
+
+    def _word_checks(self, i, toks, arg, content):
+        """the property on what `encode` just returned, read off the returned bits with the class tables
+        (no further call): length, message bits, Hamming rows, column parity"""
+        cd = self.cds[toks[1]]
+        bits = "" if arg[2:] == "-" else arg[2:]
+        if arg[0] not in "BLS" or len(bits) not in cd.lengths or "?" in bits:
+            return
+        if arg[0] == "S" and cd.c and len(bits) != cd.n:
+            return  # a list has no tobytes / is refused by ba2int: AttributeError / TypeError by design
+        m = cd.message_of(bits)
+        even = toks[2] == "1" if cd.name == "32" else True
+        what_in = f"VBPTC{cd.name}.encode of the {len(bits)}-bit form of message {m}"
+        if content.startswith("ERR"):
+            self._bad("encode-raises", i, f"{what_in} raises", "on-air bits", content)
+            return
+        if not content.startswith("B:") or len(content) - 2 != cd.n:
+            self._bad("encode-length", i, f"{what_in} does not return {cd.n} bits in a big-endian bitarray", cd.n, content[:40])
+            return
+        e = content[2:]
+        got = "".join(e[cd.info[j]] for j in range(cd.k))
+        if got != m:
+            self._bad("extract", i, f"{what_in}: the data bits of the returned word are not the message", m, got)
+        for r in range(cd.hrows):
+            row = bitarray([int(e[cd.cell[(r, c)]]) for c in range(cd.W)])
+            if call(cd.ham.check, row) != "1":
+                self._bad("row-not-codeword", i, f"{what_in}: row {r + 1} of the transmitted matrix is not a code word", "1", row.to01())
+                break
+        want = 0 if even else 1
+        for c in range(cd.W):
+            p = 0
+            for r in range(cd.R):
+                p ^= int(e[cd.cell[(r, c)]])
+            if p != want:
+                self._bad("column-parity", i, f"{what_in}: column {c} of the transmitted matrix has parity {p}", want, p)
+                break
+
+    def finish(self):
+        """read every held object once more (lines for the model)"""
+        for k, o in enumerate(self.held):
+            if o is not None:
+                self.lines.append((f"vh.read @{k}", canon(o)))
+        return self
+
+
+def compress(steps):
+    """drop the steps that do nothing (nop, steps on empty handles) and renumber the handles"""
+    alive, new, out = [], {}, []
+    for st in steps:
+        toks = list(st)
+        op = toks[0]
+        refs = [int(t[1:]) for t in toks[1:] if t.startswith("@")]
+        dead = op in ("nop", "nop+") or any(r >= len(alive) or not alive[r] for r in refs)
+        if op in PUSHING:
+            if not dead:
+                new[len(alive)] = sum(alive)
+            alive.append(not dead)
+        if not dead:
+            out.append(tuple(f"@{new[int(t[1:])]}" if t.startswith("@") else t for t in toks))
+    return out
+
+
+def shrink_history(steps, fails):
+    """greedy: blank one step after the other while `fails` (run on new copies of the classes) still holds"""
+    steps = list(steps)
+    for idx in reversed(range(len(steps) - 1)):
+        if steps[idx][0] in ("nop", "nop+"):
+            continue
+        cand = list(steps)
+        cand[idx] = ("nop+",) if steps[idx][0] in PUSHING else ("nop",)
+        if fails(cand):
+            steps = cand
+    small = compress(steps)
+    return small if fails(small) else steps
+
+
+# ---- inputs a history is built from ------------------------------------------------------------------
+def rbits(rng, n: int, p: float = 0.5) -> str:
+    return "".join("1" if rng.random() < p else "0" for _ in range(n))
+
+
+def same_value(t: str, L: int):
+    """the L-bit string with the same integer value as t (None if it does not fit)"""
+    if L >= len(t):
+        return "0" * (L - len(t)) + t
+    return t[-L:] if "1" not in t[:-L] else None
+
+
+def octet_reverse(t: str) -> str:
+    """bits of a little-endian container with the same tobytes() as the big-endian container of t"""
+    return "".join(t[i:i + 8][::-1] for i in range(0, len(t), 8))
+
+
+def message_for_history(rng, cd):
+    k = cd.k
+    r = rng.random()
+    if r < 0.35:
+        shape, m = "random", rbits(rng, k)
+    elif r < 0.55:
+        z = rng.choice((cd.c or 5, 8, 16)) if k > 16 else rng.choice((2, 5))
+        shape, m = "leading-zeros", "0" * z + rbits(rng, k - z)
+    elif r < 0.70:
+        shape, m = "small-value", "0" * (k - 9) + rbits(rng, 9)
+    elif r < 0.85:
+        shape, m = "sparse", flip_str("0" * k, rng.sample(range(k), rng.randint(1, 3)))
+    else:
+        shape, m = "dense", rbits(rng, k, 0.9)
+    if "1" not in m:
+        m = flip_str(m, [rng.randrange(k)])
+    return shape, m
+
+
+class Rel:
+    """a message of one class with everything related to it; reference values come from new copies of the
+    classes (never from the classes under test, whose state the histories are about)"""
+
+    def __init__(self, cd, m: str, rng, cds):
+        self.cd, self.m, self.rng, self.cds = cd, m, rng, cds
+        F = FreshEnv()
+        cls = F[cd.name]
+        self.parities = (True, False) if cd.name == "32" else (True,)
+        self.cw, self.allf = {}, {}
+        for p in self.parities:
+            w = cls.encode(bitarray(m), p) if cd.name == "32" else cls.encode(bitarray(m))
+            self.cw[p] = w.to01()
+            self.allf[p] = cls.deinterleave_all_bits(bitarray(w)).to01()
+        self.cs_msb = self.cs_ext = ""
+        if cd.name == "128":
+            self.cs_msb = self.cs_ext = int2ba(F["cs5"].calculate(bitarray(m).tobytes()), length=5).to01()
+        elif cd.name == "68":
+            self.cs_msb = int2ba(F["crc8"].calculate(bitarray(m)), length=8).to01()
+            self.cs_ext = self.cs_msb[::-1]
+        self._near_cw = None
+
+    def near(self, m=None) -> str:
+        m = m or self.m
+        return flip_str(m, self.rng.sample(range(len(m)), self.rng.choice((1, 1, 2, 3))))
+
+    def forms(self, even=True, m=None):
+        """the accepted input forms of the message: (label, bits)"""
+        cd = self.cd
+        if m is None:
+            out = [("message", self.m)]
+            if cd.c:
+                out.append(("message+checksum", self.m + self.cs_msb))
+            out.append(("de-interleaved-matrix", self.allf[even]))
+            return out
+        r = Rel(cd, m, self.rng, self.cds)
+        return r.forms(even if even in r.parities else True)
+
+    def form(self, L: int, even=True, m=None) -> str:
+        for _, b in self.forms(even, m):
+            if len(b) == L:
+                return b
+        raise KeyError(L)
+
+    def near_codeword(self, even=True) -> str:
+        F = FreshEnv()
+        cls = F[self.cd.name]
+        m2 = bitarray(self.near())
+        return (cls.encode(m2, even) if self.cd.name == "32" else cls.encode(m2)).to01()
+
+    # -- relatives: inputs a coarse notion of "the same input as before" would confuse with t -----------
+    def enc_relatives(self, t: str):
+        rng, cd, n = self.rng, self.cd, len(t)
+        out = []
+        for L in cd.lengths:
+            if L != n:
+                v = same_value(t, L)
+                if v is not None:
+                    out.append(("same-int-other-length", "B:" + v))
+                if L > n:
+                    out.append(("same-prefix-longer", "B:" + t + rbits(rng, L - n)))
+                    out.append(("same-suffix-longer", "B:" + rbits(rng, L - n) + t))
+                else:
+                    out.append(("prefix-of", "B:" + t[:L]))
+                    out.append(("suffix-of", "B:" + t[-L:]))
+        for s_ in (8, 16, 32):
+            if s_ < n:
+                out.append((f"same-low-{s_}", "B:" + rbits(rng, n - s_) + t[-s_:]))
+                out.append((f"same-high-{s_}", "B:" + t[:s_] + rbits(rng, n - s_)))
+        out.append(("one-bit-away", "B:" + flip_str(t, [rng.randrange(n)])))
+        out.append(("near-message-same-form", "B:" + self._same_form(t)))
+        out.append(("complement", "B:" + flip_str(t, range(n))))
+        out.append(("reversed", "B:" + t[::-1]))
+        out += self.containers(t)
+        return [(lab, lit) for lab, lit in out if lit != "B:" + t]
+
+    def _same_form(self, t: str) -> str:
+        """the same input form of a message one to three bits away"""
+        try:
+            return self.form(len(t), True, self.near())
+        except Exception:  # noqa
+            return flip_str(t, [self.rng.randrange(len(t))])
+
+    @staticmethod
+    def containers(t: str):
+        return [("little-endian-same-bits", "L:" + t), ("little-endian-same-int", "L:" + t[::-1]),
+                ("little-endian-same-tobytes", "L:" + octet_reverse(t)), ("frozenbitarray", "F:" + t),
+                ("list", "S:" + t), ("tuple", "T:" + t)]
+
+    def air_relatives(self, w: str):
+        rng, n = self.rng, len(w)
+        out = [("one-error", "B:" + flip_str(w, [rng.randrange(n)])),
+               ("two-errors", "B:" + flip_str(w, rng.sample(range(n), 2))),
+               ("code-word-of-near-message", "B:" + self.near_codeword()),
+               ("data-bits-only", "B:" + "".join(ch if j in self.cd.info_set else "0" for j, ch in enumerate(w))),
+               ("complement", "B:" + flip_str(w, range(n))),
+               ("reversed", "B:" + w[::-1]),
+               ("one-bit-shorter", "B:" + w[:-1]), ("one-bit-longer", "B:" + w + "0"), ("same-int-longer", "B:0" + w)]
+        for s_ in (8, 16, 32):
+            if s_ < n:
+                out.append((f"same-low-{s_}", "B:" + rbits(rng, n - s_) + w[-s_:]))
+                out.append((f"same-high-{s_}", "B:" + w[:s_] + rbits(rng, n - s_)))
+        out += self.containers(w)
+        return [(lab, lit) for lab, lit in out if lit != "B:" + w]
+
+    def other_class_calls(self, t: str):
+        """calls on the other classes with an input of the same integer value / the same bits"""
+        out = []
+        for cd2 in self.cds.values():
+            if cd2.name == self.cd.name:
+                continue
+            for L in cd2.lengths:
+                v = same_value(t, L)
+                if v is not None:
+                    out.append(("encode", cd2.name, "1", "B:" + v))
+            out.append(("encode", cd2.name, "1", "B:" + t))
+            out.append(("data", cd2.name, "1" if cd2.c else "0", "B:" + t))
+        return out
+
+
+class Target:
+    """a call under observation: head tokens, the argument literal, what the property promises (or None),
+    related argument literals [(label, literal)], and literals of other containers that the promise covers"""
+
+    def __init__(self, name, head, arg, promise, relatives, same_promise=(), rlen=None):
+        self.name, self.head, self.arg, self.promise = name, tuple(head), arg, promise
+        self.relatives, self.same_promise = relatives, tuple(same_promise)
+        # number of items of the result (for in-range edits of it); 0 = unknown
+        self.rlen = rlen if rlen is not None else (content_len(promise) if promise else 0)
+
+    def toks(self, arg=None, promised=True):
+        t = self.head + (arg or self.arg,)
+        return t + (("?=" + self.promise,) if (promised and self.promise is not None) else ())
+
+
+def targets(rel: Rel):
+    """every entry point of the class of `rel` (and the two checksum functions) on inputs tied to its message"""
+    cd, rng, m = rel.cd, rel.rng, rel.m
+    T = []
+    for even in rel.parities:
+        e01 = "1" if even else "0"
+        for label, t in rel.forms(even):
+            same = ["F:" + t] + (["S:" + t, "T:" + t, "L:" + t] if (cd.c == 0 or len(t) == cd.n) else [])
+            T.append(Target(f"encode:{label}", ("encode", cd.name, e01), "B:" + t, "B:" + rel.cw[even],
+                            rel.enc_relatives(t), same))
+    even = rng.choice(rel.parities)
+    w = rel.cw[even]
+    anyc = ["F:" + w, "S:" + w, "T:" + w, "L:" + w]
+    if cd.name == "32":
+        T.append(Target("data", ("data", cd.name, "0"), "B:" + w, "B:" + m, rel.air_relatives(w), anyc))
+    else:
+        T.append(Target("data:with-checksum", ("data", cd.name, "1"), "B:" + w, "B:" + m + rel.cs_ext, rel.air_relatives(w), anyc))
+        T.append(Target("data:message-only", ("data", cd.name, "0"), "B:" + w, "B:" + m, rel.air_relatives(w), anyc))
+        T.append(Target("cs", ("cs", cd.name), "B:" + w, "B:" + rel.cs_ext, rel.air_relatives(w), anyc))
+    T.append(Target("all", ("all", cd.name), "B:" + w, "B:" + rel.allf[even], rel.air_relatives(w), anyc))
+    # an on-air word that is not a code word: no promise, only "same answer as the first time"
+    bad = flip_str(w, rng.sample(range(cd.n), rng.randint(1, 4)))
+    op = rng.choice([("data", cd.name, "1" if cd.c else "0"), ("all", cd.name)] + ([("cs", cd.name)] if cd.c else []))
+    T.append(Target(f"{op[0]}:corrupted-word", op, "B:" + bad, None, rel.air_relatives(bad),
+                    rlen={"data": cd.k, "all": cd.n, "cs": cd.c}[op[0]]))
+    # set_parity: a full column (written in place, returned itself) or one without its parity cell (copied)
+    for full in (True, False):
+        if not full and cd.name == "32":
+            continue
+        L = cd.R if full else cd.R - 1
+        col = rbits(rng, L)
+        pe = rng.choice(rel.parities)
+        body = col[: cd.R - 1]
+        par = str((body.count("1") + (0 if pe else 1)) % 2)
+        rels = [("other-column", "A:" + rbits(rng, L)), ("one-bit-away", "A:" + flip_str(col, [rng.randrange(L)])),
+                ("other-length", "A:" + rbits(rng, cd.R if not full else cd.R - 1)), ("too-long", "A:" + col + "0"),
+                ("complement", "A:" + flip_str(col, range(L)))]
+        T.append(Target("setparity:" + ("full-column" if full else "column-without-parity-cell"),
+                        ("setparity", cd.name, "1" if pe else "0"), "A:" + col, "A:" + body + par, rels))
+    return T
+
+
+def checksum_targets(rng):
+    T = []
+    L = rng.choice((0, 1, 7, 8, 9, 11, 16, 27, 28, 28, 29, 32, 36, 40))
+    b = rbits(rng, L)
+    rels = [("same-tobytes-zero-padded", "B:" + b + "0" * j) for j in (1, (-L) % 8 or 8)]
+    rels += [("same-int-longer", "B:0" + b), ("other", "B:" + rbits(rng, L)), ("empty", "B:-")]
+    if L:
+        rels += [("one-bit-away", "B:" + flip_str(b, [rng.randrange(L)])), ("prefix-of", "B:" + b[:-1])]
+        rels += Rel.containers(b)
+    T.append(Target("crc8calc", ("crc8calc",), "B:" + (b or "-"), None, [(l, x if x[2:] else x[:2] + "-") for l, x in rels],
+                    ("F:" + (b or "-"),)))
+    n = rng.choice((0, 1, 2, 8, 9, 9, 9))
+    d = bytes(rng.randrange(256) for _ in range(n))
+    if n and rng.random() < 0.3:
+        d = bytes([0]) + d[1:]
+    hx = lambda x: x.hex() or "-"  # noqa
+    rels = [("leading-zero-octet-added", "O:" + hx(bytes([0]) + d)), ("leading-octet-dropped", "O:" + hx(d[1:])),
+            ("reversed", "O:" + hx(d[::-1])), ("other", "O:" + hx(bytes(rng.randrange(256) for _ in range(n)))),
+            ("ten-octets", "O:" + hx(bytes(rng.randrange(256) for _ in range(10)))), ("bytes", "Y:" + hx(d))]
+    if n:
+        j = rng.randrange(n)
+        rels.append(("one-octet-away", "O:" + hx(d[:j] + bytes([(d[j] + rng.randrange(1, 256)) % 256]) + d[j + 1:])))
+        rels.append(("plus-31", "O:" + hx(d[:j] + bytes([(d[j] + 31) % 256]) + d[j + 1:])))
+    T.append(Target("cs5calc", ("cs5calc",), "O:" + hx(d), None, rels, ("Y:" + hx(d),)))
+    return T
+
+
+class Build:
+    """steps of one history; call() returns the handle of the result"""
+
+    def __init__(self):
+        self.steps, self.n, self.kind = [], 0, {}
+
+    def call(self, *toks):
+        toks = tuple(str(t) for t in toks)
+        self.steps.append(toks)
+        self.kind[self.n] = toks[1][0] if toks[0] == "new" else RESULT_KIND.get(toks[0])
+        self.n += 1
+        return self.n - 1
+
+    def do(self, *toks):
+        self.steps.append(tuple(str(t) for t in toks))
+
+    def edit_to(self, h, cur: str, new: str, rng):
+        """in-place edits that turn the content `cur` of held object h (a literal) into the content of `new`"""
+        kind, a, b = cur[0], cur[2:].replace("-", ""), new[2:].replace("-", "")
+        if kind == "O":
+            ba, bb = bytes.fromhex(a), bytes.fromhex(b)
+            if len(ba) != len(bb):
+                return False
+            for j, (x, y) in enumerate(zip(ba, bb)):
+                if x != y:
+                    self.do("put", f"@{h}", j, y)
+            return True
+        diff = [j for j, (x, y) in enumerate(zip(a, b)) if x != y] if len(a) == len(b) else None
+        if diff is not None and (kind == "A" or len(diff) <= 4):
+            rng.shuffle(diff)
+            for j in diff:
+                self.do("flip", f"@{h}", j)
+            return True
+        if kind == "A":
+            return False
+        r = rng.random()
+        if r < 0.5 or not b:
+            self.do("assign", f"@{h}", b or "-")
+        else:
+            self.do("clear", f"@{h}")
+            cut = rng.randrange(len(b) + 1)
+            if cut:
+                self.do("extend", f"@{h}", b[:cut])
+            if cut < len(b):
+                self.do("extend", f"@{h}", b[cut:])
+        return True
+
+    def scribble(self, h, kind, length, rng):
+        """the caller edits a result he was handed"""
+        if kind == "N" or kind is None:
+            return
+        r = rng.random()
+        if kind == "A" or r < 0.45:
+            if length:
+                for j in rng.sample(range(length), min(length, rng.randint(1, 4))):
+                    self.do("flip", f"@{h}", j)
+        elif r < 0.6:
+            self.do("setall", f"@{h}", rng.randrange(2))
+        elif r < 0.75:
+            self.do("clear", f"@{h}")
+        elif r < 0.9:
+            self.do("extend", f"@{h}", rbits(rng, rng.randint(1, 9)))
+        else:
+            self.do("assign", f"@{h}", rbits(rng, rng.randint(0, length + 3)) or "-")
+
+
+MUT_KINDS = "BLSAO"
+
+
+def mutable_version(lit: str) -> str:
+    """the literal as an object the caller can edit in place"""
+    return {"F": "B", "T": "S", "Y": "O"}.get(lit[0], lit[0]) + lit[1:]
+
+
+def content_len(lit: str) -> int:
+    body = lit[2:].replace("-", "")
+    return len(body) // 2 if lit[0] in "OY" else len(body)
+
+
+def disturb(b: Build, rel: Rel, rng, n: int):
+    """other calls in between: every entry point, inputs related to the message"""
+    cd = rel.cd
+    even = rng.choice(rel.parities)
+    e01 = "1" if even else "0"
+    t = rng.choice(rel.forms(even))[1]
+    w = rel.cw[even]
+    for _ in range(n):
+        r = rng.random()
+        if r < 0.25:
+            b.call("encode", cd.name, rng.choice("01") if cd.name == "32" else "1", rng.choice(rel.enc_relatives(t))[1])
+        elif r < 0.35:
+            b.call(*rng.choice(rel.other_class_calls(t)))
+        elif r < 0.55:
+            op = rng.choice([("data", cd.name, rng.choice("01") if cd.c else "0"), ("all", cd.name)] + ([("cs", cd.name)] if cd.c else []))
+            b.call(*op, rng.choice(rel.air_relatives(w))[1])
+        elif r < 0.67:
+            tb = b.call("make", cd.name)
+            if rng.random() < 0.5:
+                b.do("setall", f"@{tb}", 1)
+            b.call("fill", cd.name, f"@{tb}", "B:" + rng.choice((rel.m, rel.near(), rel.allf[even])))
+        elif r < 0.77:
+            b.call("setparity", cd.name, e01, "A:" + rbits(rng, rng.choice((cd.R, cd.R, max(cd.R - 1, 1)))))
+        elif r < 0.87:
+            b.call("crc8calc", "B:" + rng.choice((rel.m, rel.near(), w[:28])))
+        else:
+            d = bitarray(rng.choice((rel.m, rel.near()))).tobytes()[:9]
+            b.call("cs5calc", "O:" + (d.hex() or "-"))
+
+
+def scenario(g: str, b: Build, T: Target, rel, rng):
+    """one history around the call T; `rel` may be None (checksum functions)"""
+    head = T.head
+    rels = T.relatives
+    if g == "relatives-then-target":
+        picks = rng.sample(rels, min(len(rels), rng.randint(1, 3)))
+        for _, lit in picks:
+            b.call(*head, lit)
+        h = b.call(*T.toks())
+        if rng.random() < 0.5 and picks:
+            b.call(*head, picks[0][1])
+            b.call(*T.toks())
+        return [lab for lab, _ in picks]
+    if g == "object-passed-again-after-edit":
+        cand = [(lab, mutable_version(lit)) for lab, lit in rels
+                if mutable_version(lit)[0] == mutable_version(T.arg)[0] and content_len(lit) > 0]
+        same = [c for c in cand if content_len(c[1]) == content_len(T.arg)]
+        lab, first = rng.choice(same if same and rng.random() < 0.75 else cand or [("self", mutable_version(T.arg))])
+        x = b.call("new", first)
+        b.call(*head, f"@{x}")
+        if rel is not None and rng.random() < 0.25:
+            disturb(b, rel, rng, 1)
+        tgt = mutable_version(T.arg)
+        if head[0] == "setparity":
+            # a full column was written in place by the call: start the edits from a known content
+            b.do("setall", f"@{x}", 0)
+            first = "A:" + "0" * content_len(first)
+        ok = b.edit_to(x, first, tgt, rng)
+        b.call(*T.toks(f"@{x}", promised=ok))
+        if ok and rng.random() < 0.5:
+            # and back / on to a third content, same object
+            third = first if rng.random() < 0.5 else rng.choice(cand)[1] if cand else first
+            if b.edit_to(x, tgt, third, rng):
+                b.call(*head, f"@{x}")
+                if b.edit_to(x, third, tgt, rng):
+                    b.call(*T.toks(f"@{x}"))
+        b.do("read", f"@{x}")
+        return [lab]
+    if g == "result-edited-call-repeated":
+        h1 = b.call(*T.toks())
+        b.scribble(h1, b.kind[h1], T.rlen, rng)
+        b.call(*T.toks())
+        x = b.call("new", mutable_version(T.arg))
+        full_column = head[0] == "setparity" and T.rlen == content_len(T.arg)  # written in place: @x is the result
+        h3 = b.call(*T.toks(f"@{x}"))
+        b.scribble(h3, b.kind[h3], T.rlen, rng)
+        b.call(*T.toks(f"@{x}", promised=not full_column))
+        return []
+    if g == "result-kept-across-other-calls":
+        h1 = b.call(*T.toks())
+        if rel is not None:
+            disturb(b, rel, rng, rng.randint(2, 5))
+        else:
+            for _, lit in rng.sample(rels, min(len(rels), 3)):
+                b.call(*head, lit)
+        b.do("read", f"@{h1}")
+        if rel is not None and head[0] == "encode":
+            cd = rel.cd
+            b.call("data", cd.name, "0", f"@{h1}", "?=B:" + rel.m)
+            if cd.c:
+                b.call("cs", cd.name, f"@{h1}", "?=B:" + rel.cs_ext)
+                d = b.call("data", cd.name, "1", f"@{h1}", "?=B:" + rel.m + rel.cs_ext)
+                b.call(*head, f"@{d}", "?=" + T.promise)  # extractor output (message ++ checksum field) re-encoded
+            a = b.call("all", cd.name, f"@{h1}")
+            b.call(*head, f"@{a}", "?=" + T.promise)
+        b.call(*T.toks())
+        return []
+    if g == "other-containers":
+        alts = [(lit, True) for lit in T.same_promise]
+        alts += [(lit, False) for _, lit in rels if lit[0] in "LFST" and lit not in T.same_promise][:4]
+        rng.shuffle(alts)
+        for lit, promised in alts[:5]:
+            b.call(*T.toks(lit, promised=promised))
+            if rng.random() < 0.4:
+                b.call(*T.toks())
+        b.call(*T.toks())
+        return []
+    if g == "one-object-many-entry-points":
+        x = b.call("new", mutable_version(T.arg))
+        heads = [("crc8calc",)]
+        if rel is not None:
+            for cd2 in rel.cds.values():
+                heads += [("encode", cd2.name, "1"), ("data", cd2.name, "1" if cd2.c else "0"), ("all", cd2.name)]
+                if cd2.name == "32":
+                    heads.append(("encode", "32", "0"))
+                if cd2.c:
+                    heads += [("cs", cd2.name), ("data", cd2.name, "0")]
+        kind = mutable_version(T.arg)[0]
+        if kind == "O":
+            heads = [("cs5calc",)]
+        elif kind == "A":
+            heads = [("setparity", c, e) for c in ("128", "68", "32") for e in ("10" if c == "32" else "1")]
+        rng.shuffle(heads)
+        for hd in heads[: rng.randint(2, 5)]:
+            b.call(*hd, f"@{x}")
+        if kind == "A":
+            # set_parity writes into a full column: the promise is about the column as built
+            b.call(*head, f"@{x}")
+        else:
+            b.call(*T.toks(f"@{x}"))
+            if content_len(T.arg):
+                if kind == "O":
+                    b.do("put", f"@{x}", rng.randrange(content_len(T.arg)), rng.randrange(256))
+                else:
+                    b.do("flip", f"@{x}", rng.randrange(content_len(T.arg)))
+            for hd in heads[:2]:
+                b.call(*hd, f"@{x}")
+            b.call(*head, f"@{x}")
+        b.do("read", f"@{x}")
+        return []
+    raise ValueError(g)
+
+
+SCENARIOS = ("relatives-then-target", "object-passed-again-after-edit", "result-edited-call-repeated",
+             "result-kept-across-other-calls", "other-containers", "one-object-many-entry-points")
+
+
+def table_history(b: Build, rel: Rel, rng):
+    """make_encoding_table / fill_encoding_table: new tables, dirty tables, one table filled twice, the bits
+    object edited between two fills, two tables alive at once"""
+    cd = rel.cd
+    even = rng.choice(rel.parities)
+    inputs = ["B:" + rel.m, "B:" + rel.allf[even], "B:" + rel.near(), "S:" + rel.m, "L:" + rel.m, "F:" + rel.allf[even],
+              "B:" + rel.m[:-1], "B:" + rel.m + "0", "B:" + (rel.m + rel.cs_msb if cd.c else rel.m + "00")]
+    t1 = b.call("make", cd.name)
+    r = rng.random()
+    if r < 0.3:
+        b.do("setall", f"@{t1}", 1)
+    elif r < 0.6:
+        for j in rng.sample(range(cd.n), 5):
+            b.do("flip", f"@{t1}", j)
+    b.call("fill", cd.name, f"@{t1}", rng.choice(inputs[:6]))
+    t2 = b.call("make", cd.name)
+    x = b.call("new", "B:" + rel.near())
+    b.call("fill", cd.name, f"@{t2}", f"@{x}")
+    for j in rng.sample(range(cd.k), 2):
+        b.do("flip", f"@{x}", j)
+    b.call("fill", cd.name, f"@{rng.choice((t1, t2))}", f"@{x}")
+    b.call("fill", cd.name, f"@{t1}", rng.choice(inputs))
+    if rng.random() < 0.5:
+        a = b.call("fill", cd.name, f"@{t2}", "B:" + rel.m)
+        b.do("flip", f"@{a}", rng.randrange(cd.n))  # the returned table is the argument: the edit shows in @t2
+    b.call("encode", cd.name, "1", "B:" + rel.m, "?=B:" + rel.cw[True])
+    b.call("make", cd.name)
+    b.do("read", f"@{t1}")
+    b.do("read", f"@{t2}")
+
+
+def random_history(rng, rels, length):
+    """random interleaving of every entry point on inputs related to the messages of `rels`, held objects
+    passed again as arguments, edited in place, calls repeated"""
+    b = Build()
+    calls = []
+    bits_handles, arr_cols, tables, octets = [], [], [], []
+    while len(b.steps) < length:
+        rel = rng.choice(rels)
+        cd = rel.cd
+        even = rng.choice(rel.parities)
+        e01 = "1" if even else "0"
+        k = rng.random()
+        if k < 0.16:
+            pool = [("B:" + t) for _, t in rel.forms(even)] + ["B:" + rel.cw[even], "B:" + rel.near(), "L:" + rel.m, "S:" + rel.m]
+            h = b.call("new", rng.choice(pool))
+            bits_handles.append(h)
+        elif k < 0.20:
+            h = b.call("new", "A:" + rbits(rng, rng.choice((cd.R, cd.R - 1))))
+            arr_cols.append((h, cd))
+        elif k < 0.23:
+            octets.append(b.call("new", "O:" + (bytes(rng.randrange(256) for _ in range(rng.choice((2, 9, 9)))).hex())))
+        elif k < 0.55:
+            # a call on a literal or on a held object
+            use_held = bits_handles and rng.random() < 0.6
+            if use_held:
+                arg = f"@{rng.choice(bits_handles)}"
+            else:
+                t = rng.choice(rel.forms(even))[1]
+                arg = rng.choice(["B:" + t, "B:" + rel.cw[even], rng.choice(rel.enc_relatives(t))[1], rng.choice(rel.air_relatives(rel.cw[even]))[1]])
+            ops = [("encode", cd.name, e01), ("encode", cd.name, e01), ("data", cd.name, rng.choice("01") if cd.c else "0"), ("all", cd.name), ("crc8calc",)]
+            if cd.c:
+                ops.append(("cs", cd.name))
+            st = rng.choice(ops) + (arg,)
+            h = b.call(*st)
+            calls.append(st)
+            if b.kind[h] == "B":
+                bits_handles.append(h)
+        elif k < 0.62 and calls:
+            st = rng.choice(calls)
+            h = b.call(*st)
+            if b.kind[h] == "B":
+                bits_handles.append(h)
+        elif k < 0.80 and bits_handles:
+            h = rng.choice(bits_handles)
+            r = rng.random()
+            if r < 0.6:
+                b.do("flip", f"@{h}", rng.randrange(11))
+            elif r < 0.7:
+                b.do("setall", f"@{h}", rng.randrange(2))
+            elif r < 0.8:
+                b.do("extend", f"@{h}", rbits(rng, rng.choice((1, 5, 8, cd.c or 21))))
+            elif r < 0.9:
+                b.do("assign", f"@{h}", rng.choice(rel.forms(even))[1])
+            else:
+                b.do("clear", f"@{h}")
+        elif k < 0.86:
+            t = b.call("make", cd.name)
+            tables.append((t, cd))
+            if rng.random() < 0.4:
+                b.do("setall", f"@{t}", 1)
+        elif k < 0.92 and tables:
+            t, tcd = rng.choice(tables)
+            arg = f"@{rng.choice(bits_handles)}" if bits_handles and rng.random() < 0.5 else "B:" + rng.choice((rel.m, rel.allf[even]))
+            b.call("fill", tcd.name, f"@{t}", arg)
+        elif k < 0.96 and arr_cols:
+            h, ccd = rng.choice(arr_cols)
+            b.call("setparity", ccd.name, rng.choice("01") if ccd.name == "32" else "1", f"@{h}")
+            if rng.random() < 0.5:
+                b.do("flip", f"@{h}", 0)
+        elif octets:
+            h = rng.choice(octets)
+            b.call("cs5calc", f"@{h}")
+            b.do("put", f"@{h}", 0, rng.randrange(256))
+            b.call("cs5calc", f"@{h}")
+        else:
+            b.call("cs5calc", "O:" + bitarray(rel.m).tobytes()[:9].hex())
+    return b.steps
+
+
+class Histories:
+    """runs histories on the classes under test (the long-lived ones of this process) and reports"""
+
+    def __init__(self, ctx, cds):
+        self.ctx, self.cds = ctx, cds
+        self.env = real_env()
+        self.lines, self.pending = [], []
+
+    def run(self, steps, tag, sample=False):
+        ctx = self.ctx
+        H = Hist(self.env, self.cds, fresh=True).run(steps)
+        H.finish()
+        ctx.case(("history", tuple(steps)), nontrivial=True,
+                 sample={"history": steps_str(steps), "results": [o[:48] for _, o in H.lines[:len(steps)]]} if sample else None)
+        ctx.count(f"hist:{tag}")
+        ctx.count("hist:steps", len(steps))
+        ctx.count("hist:held-objects", sum(1 for o in H.held if o is not None))
+        for st in steps:
+            if st[-1].startswith("?="):
+                ctx.count("hist:calls-with-promised-result")
+            if st[0] in ARGPOS and any(t.startswith("@") for t in st[1:]):
+                ctx.count("hist:held-object-as-argument")
+            if st[0] in EDITS:
+                ctx.count("hist:in-place-edits")
+        self.lines.append(("vh.reset", "ok"))
+        self.lines += H.lines
+        seen = set()
+        for kind, i, what, exp, act in H.bad:
+            if kind in seen:
+                continue
+            seen.add(kind)
+            prio = 0 if kind in PROPERTY_KINDS else 1 if kind == "history-dependent-result" else 2
+            self.pending.append((prio, kind, steps[: i + 1], what, exp, act))
+
+    def emit(self):
+        """report what the histories found, failures of the property as stated first; the first few are reduced
+        to a short history that fails on new copies of the classes (so that the replay, a new process, fails too)"""
+        ctx = self.ctx
+        self.pending.sort(key=lambda r: r[0])
+        per_kind = {}
+        for n, (_, kind, steps, what, exp, act) in enumerate(self.pending):
+            per_kind[kind] = per_kind.get(kind, 0) + 1
+            if per_kind[kind] > 4:
+                continue
+
+            def fails(cand, kind=kind):
+                try:
+                    return any(b[0] == kind for b in Hist(FreshEnv(), self.cds, fresh=True).run(cand).bad)
+                except Exception:  # noqa
+                    return False
+
+            inp = {"history": steps_str(steps)}
+            if n < 8:
+                if fails(steps):
+                    inp = {"history": steps_str(shrink_history(steps, fails)), "fails_on_new_copies_of_the_classes": True}
+                else:
+                    inp["fails_on_new_copies_of_the_classes"] = False
+            ctx.fail(kind, inp, what + " (after the calls of the history)", expected=exp, actual=act)
+        for kind, cnt in per_kind.items():
+            ctx.count(f"hist-fail:{kind}", cnt)
+        self.pending = []
+
+    def flush(self):
+        ctx = self.ctx
+        if self.lines and not ctx.search_only and ctx.driver_ok:
+            ctx.correspond("history", self.lines)
+        self.lines = []
+
+
+def run_histories(ctx, cds):
+    rng = ctx.rng
+    boost = min(ctx.boost, 4)
+    Hs = Histories(ctx, cds)
+    sweeps = (2 if not ctx.thorough() else 20) * boost
+    for s in range(sweeps):
+        for cd in cds.values():
+            shape, m = message_for_history(rng, cd)
+            try:
+                rel = Rel(cd, m, rng, cds)
+                T = targets(rel)
+            except BaseException as ex:  # noqa  (a class that cannot even encode: reported by the plain streams)
+                ctx.count(f"hist:skipped:{cd.name}:{impl_error(ex)}")
+                continue
+            ctx.count(f"hist:message:{shape}")
+            for ti, tg in enumerate(T):
+                for gi, g in enumerate(SCENARIOS):
+                    if g == "other-containers" and not tg.same_promise and tg.promise is not None:
+                        continue
+                    # every (entry point, scenario) once per sweep; the message changes with the target now and then
+                    b = Build()
+                    labs = scenario(g, b, tg, rel, rng)
+                    ctx.count(f"hist:entry:{tg.name.split(':')[0]}[{cd.name}]")
+                    for lab in labs:
+                        ctx.count(f"hist:relative:{lab}")
+                    Hs.run(b.steps, "scenario:" + g, sample=(s == 0 and cd.name == "32" and ti == 0 and gi == 1))
+            b = Build()
+            table_history(b, rel, rng)
+            Hs.run(b.steps, "scenario:tables")
+        for _ in range(3):
+            for tg in checksum_targets(rng):
+                for g in SCENARIOS:
+                    b = Build()
+                    scenario(g, b, tg, None, rng)
+                    ctx.count(f"hist:entry:{tg.name}")
+                    Hs.run(b.steps, "scenario:" + g)
+        Hs.flush()
+    n_rand = (150 if not ctx.thorough() else 4000) * boost
+    for i in range(n_rand):
+        cd = rng.choice(list(cds.values()))
+        try:
+            rels = [Rel(cd, message_for_history(rng, cd)[1], rng, cds)]
+            if rng.random() < 0.4:
+                rels.append(Rel(cd, rels[0].near(), rng, cds))
+            if rng.random() < 0.3:
+                cd2 = rng.choice(list(cds.values()))
+                rels.append(Rel(cd2, message_for_history(rng, cd2)[1], rng, cds))
+            steps = random_history(rng, rels, rng.randint(5, 16))
+        except BaseException as ex:  # noqa
+            ctx.count(f"hist:skipped:{cd.name}:{impl_error(ex)}")
+            continue
+        Hs.run(steps, "random-interleaving", sample=(i == 0))
+        if i % 200 == 199:
+            Hs.flush()
+    Hs.flush()
+    Hs.emit()
+
+
 def run(ctx):
     ctx.rule = (
         "per class: corpus (messages with non-palindromic CS-5, the captured on-air words of the test-suite), "
@@ -268,21 +1410,34 @@ def run(ctx):
         "goes through the property oracle on the real code (extract, checksum read-back, rows, columns, re-encodings) "
         "and through the model (all accepted encode input lengths, every extractor).  Extra streams: GF(2) linearity "
         "spot checks, rejected lengths, random non-code on-air words through the extractors, every set_parity column, "
-        "FiveBitChecksum / CRC8 on random inputs.  A case is non-trivial unless the message is all-zero; distinct = "
-        "distinct (class, operation, input)"
+        "FiveBitChecksum / CRC8 on random inputs.  Histories: for every entry point of the three classes and the two "
+        "checksum functions (encode in every accepted input form and both parities, the four extractors, set_parity, "
+        "make / fill_encoding_table, FiveBitChecksum.calculate, CRC8.calculate) x six scenarios (related inputs first — "
+        "same integer value in another length class, same prefix / suffix / low / high bits, same tobytes, other "
+        "container; the same argument object passed again after in-place edits; the result edited and the call "
+        "repeated; the result kept across calls of every other entry point and re-read / re-used as argument; other "
+        "containers: little-endian, frozenbitarray, list, tuple, bytes; one object passed to many entry points) plus "
+        "table histories and random interleavings; every call is compared with the same call made first on new copies "
+        "of the classes, with what the property promises, with the store model (vh.* lines), every held object is "
+        "re-read after every step, results are checked for identity with held objects; at the end of the run a sample "
+        "of the messages of the plain streams is encoded again and must give the first answer.  A case is non-trivial "
+        "unless the message is all-zero; distinct = distinct (class, operation, input) / distinct history"
     )
     ctx.trusted_base += [
         "Lean 4.33 kernel",
         "tools/extract_vbptc.py (dumps INTERLEAVING_INDICES and the five derived maps of the three classes in dict order, and the CRC-8 configuration of CRC8.CALC) and tools/extract.py gen_codes (Hamming matrices)",
         "hand-written model Model/Vbptc.lean (encode control flow, fill/place/row/column/read-out loops, hard-coded checksum cells, FiveBitChecksum, table based CRC-8 register) tied to the code by this run's correspondence",
+        "hand-written store model Model/VbptcStore.lean (which calls hand out new objects / return their argument, what a little-endian container / a list changes) tied to the code by the history lines of this run's correspondence",
         "Lemmas/VbptcPacked.lean bridging is proved, not trusted; numpy / bitarray are trusted as the substrate of the implementation",
     ]
     ctx.assumptions += [
-        "inputs are big-endian bitarrays (tobytes / ba2int of a little-endian bitarray differ); the property speaks of bit strings",
+        "the property speaks of bit strings: its promises are checked for big-endian bitarrays / frozenbitarrays (and for every 0/1 sequence where the code only subscripts); a little-endian container changes the checksum the library computes (tobytes / ba2int), which is modelled and compared but not promised",
+        "the history probes compare with new copies of the five classes under test; the Hamming classes and crc.py they import are shared with the copies (C06 / C05 own them)",
         "IndexError / negative-index wrap-around inside the loops is excluded by the theorem tables_in_range on the tables extracted on this run, the model does not raise there",
     ]
     do_corr = (not ctx.search_only) and ctx.driver_ok
     cds = classes()
+    first_answers = []  # (class, message, parity, on-air bits) of the plain streams, for the re-verification at the end
     for cd in cds:
         pairs = []  # (line, impl output)
         if cd.name == "32":
@@ -299,6 +1454,8 @@ def run(ctx):
             for even in parities:
                 e, fails = oracle(ctx, cd, m, even)
                 record(ctx, fails)
+                if e is not None and not fails:
+                    first_answers.append((cd, bs(m), even, bs(e)))
                 ctx.count(f"{cd.name}:{tag}")
                 ctx.case((cd.name, "msg", bs(m), even), nontrivial=m.any(),
                          sample={"class": cd.name, "message": bs(m), "even": even, "on_air": bs(e) if e is not None else None}
@@ -433,17 +1590,64 @@ def run(ctx):
                 ctx.case(("crc8", bs(b)), nontrivial=b.any())
         ctx.count("checksum-functions", len(pairs))
         ctx.correspond("FiveBitChecksum/CRC8", pairs)
+    # ---- histories of calls on the long-lived classes of this process -------------------------------
+    run_histories(ctx, {cd.name: cd for cd in cds})
+
+    # ---- the first answers of this run, asked again after everything else ---------------------------
+    n_again = min(len(first_answers), ctx.budget(400, 6000))
+    for cd, m, even, e in (ctx.rng.sample(first_answers, n_again) if n_again else []):
+        ctx.count(f"{cd.name}:asked-again-at-the-end")
+        r = call(cd.encode, bitarray(m), even)
+        if r != e:
+            ctx.fail("answer-changed-over-run", {"code": cd.name, "message": m, "even": even, "after_calls": "the whole run"},
+                     "encode(m) at the end of the run differs from encode(m) earlier in the same run", e, r)
+            continue
+        e2, fails = oracle(ctx, cd, bitarray(m), even)
+        record(ctx, fails)
     if ctx.thorough():
         ctx.notes.append("(32,11): all 2^11 x 2 (message, parity) pairs were evaluated on the real code (exhaustive for that class)")
     ctx.exhaustive = False
 
 
 # ------------------------------------------------------------------------------------------------
+def replay_history(inp, f):
+    """re-run a history on the real classes (this process has not called them before): every call is compared
+    with the same call on new copies, with its promise, and the model's answers are printed next to it"""
+    cds = {c.name: c for c in classes()}
+    steps = steps_parse(inp["history"])
+    H = Hist(real_env(), cds, fresh=True).run(steps)
+    model = {}
+    exe = os.path.join(BIN, "drv_c09")
+    if os.path.exists(exe):
+        lines = ["vh.reset"] + [l for l, _ in H.lines]
+        p = subprocess.run([exe], input="\n".join(lines) + "\n", capture_output=True, text=True)
+        model = dict(enumerate(p.stdout.split("\n")[1:]))
+    for i, (st, (_, out)) in enumerate(zip(steps, H.lines)):
+        print(f"step {i:2d}  {' '.join(st)[:170]}")
+        print(f"         implementation -> {out}")
+        if i in model:
+            print(f"         model          -> {model[i]}" + ("" if model[i] == out else "      <-- differs"))
+    for k, i, w, ex, ac in H.bad:
+        print(f"FAILS [{k}] at step {i}: {w}")
+        print(f"         expected {ex}")
+        print(f"         actual   {ac}")
+    if not H.bad:
+        print("the history does not fail in this process")
+    print("recorded:", f.get("kind"), "-", f.get("what"))
+    print("expected:", f.get("expected"))
+    print("actual:  ", f.get("actual"))
+    return 1 if H.bad else 0
+
+
 def replay(obj):
     f = obj.get("failure") or {}
     inp = f.get("input", {})
     print(json.dumps(obj.get("type")), f.get("kind"), "-", f.get("what"))
     print("recorded expected:", f.get("expected"), "actual:", f.get("actual"))
+    if "history" in inp:
+        return replay_history(inp, f)
+    if inp.get("after_calls"):
+        print("note: this answer changed in the course of a whole run; the single call below is made first in this process")
     table = {c.name: c for c in classes()}
     cd = table.get(inp.get("code"))
     if cd is None:
